@@ -36,7 +36,7 @@ RULE = ("call histories drawn from a grammar: Integrate(k) with k in 0..remainin
         "sizes that end just below / at / just above the current capacity and twice the capacity), "
         "Predict(next | foreign | already used increment), GetPva, GetTime, SetPva(random pva with VD != 0); "
         "INITIAL_SIZE in {1,2,3,5,8,10000}; both altitude modes; ~40 % of the increment tables store their labelled "
-        "columns in a permuted order with an unrelated extra column, ~30 % of the histories supply every pva as an "
+        "columns in a permuted order (half of those with an unrelated extra column), ~30 % of the histories supply every pva as an "
         "int64 Series of whole numbers (labels define the meaning: the model is unchanged); increments with both branches of "
         "mat_from_rotvec; thorough adds every history of <= 5 ops over {I0,I1,I2,I3,Pnext,Pforeign,S} at "
         "capacity 2 (2D) and 3 (3D), <= 4 ops for the other two mode/capacity pairs.  A case is distinct by (mode, capacity, op sequence); non-trivial if it "
@@ -76,7 +76,7 @@ def make_data(h):
         rs.uniform(-180, 180, npva), rs.uniform(-80, 80, npva), rs.uniform(-180, 180, npva)])
     ipva = bool(h.get('ipva'))
     if ipva:                                  # whole numbers, handed over as int64 Series
-        pv = np.round(pv)
+        pv = np.round(pv) + 0.0          # (+ 0.0: no negative zeros, int64 cannot carry them)
         pv[:, 5] = np.where(pv[:, 5] == 0, 1.0, pv[:, 5])
     order = list(INC_COLS)
     if h.get('cols'):                         # labelled columns stored in another order + an unrelated column
@@ -84,7 +84,8 @@ def make_data(h):
         order = [INC_COLS[i] for i in rc.permutation(7)]
         if order == list(INC_COLS):
             order = order[1:] + order[:1]
-        order.insert(int(rc.randint(0, 8)), EXTRA_COL)
+        if int(h['cols']) % 2:                # odd: additionally an unrelated column somewhere
+            order.insert(int(rc.randint(0, 8)), EXTRA_COL)
     return dict(t0=t0, table=table, labels=labels, pvas=pv, cols=TRAJECTORY_COLS, ipva=ipva, order=order)
 
 
@@ -92,7 +93,8 @@ def inc_frame(d, ids):
     df = pd.DataFrame(d['table'][list(ids)].reshape(-1, 7),
                       index=[d['labels'][i] * LABEL for i in ids], columns=INC_COLS)
     if d['order'] != list(INC_COLS):
-        df[EXTRA_COL] = 20.5
+        if EXTRA_COL in d['order']:
+            df[EXTRA_COL] = 20.5
         df = df[d['order']]
     return df
 
@@ -100,7 +102,8 @@ def inc_frame(d, ids):
 def inc_series(d, i):
     s = pd.Series(d['table'][i].copy(), index=INC_COLS, name=d['labels'][i] * LABEL)
     if d['order'] != list(INC_COLS):
-        s[EXTRA_COL] = 20.5
+        if EXTRA_COL in d['order']:
+            s[EXTRA_COL] = 20.5
         s = s[d['order']]
     return s
 
@@ -209,9 +212,8 @@ def instrumented(cap, log):
             raise KernelOutOfBounds(f"kernel would access rows {offset}..{offset + n} of buffers of "
                                     f"length {len(lla)}")
         if n > 0:
-            lla[offset + 1: offset + 1 + n] = np.nan
-            vel[offset + 1: offset + 1 + n] = np.nan
-            mat[offset + 1: offset + 1 + n] = np.nan
+            for a in (lla, vel, mat):
+                a[offset + 1: offset + 1 + n] = np.nan if a.dtype.kind == 'f' else -(2 ** 40)
         return old_k(dt, lla, vel, mat, theta, dv, offset, with_altitude)
 
     strapdown.Integrator.INITIAL_SIZE = cap
@@ -316,12 +318,15 @@ def statement_failures(h, d, real):
     label = d['t0'] * LABEL
     segs = segments(h)
     log = []
+    dc = dict(d, ipva=False, order=list(INC_COLS))
     try:
         with instrumented(10000, log):
             for k, (pid, ids, _) in enumerate(segs):
-                p = pva_series(d, pid, label / LABEL)
+                # the reference is always given in the canonical representation (float64 pva, documented
+                # column order): labels and values define the meaning, not dtype or storage order
+                p = pva_series(dc, pid, label / LABEL)
                 f = strapdown.Integrator(p, with_altitude=h['alt'])
-                f.integrate(inc_frame(d, ids))
+                f.integrate(inc_frame(dc, ids))
                 idx = [float(x) for x in f.trajectory.index]
                 val = np.array(f.trajectory.values, dtype=float)
                 if k + 1 < len(segs):
@@ -817,7 +822,7 @@ def corpus(modes=(True, False)):
                         ops=[['P', 0], ['I', 1], ['P', 1], ['P', 5], ['I', 2], ['S', 1], ['P', 3], ['I', 2], ['G']]))
         out.append(dict(alt=alt, cap=3, seed=14, n=5, nf=1, npva=3, cols=0, ipva=True,
                         ops=[['G'], ['S', 2], ['G'], ['P', 0], ['I', 2], ['S', 1], ['I', 3], ['G'], ['T']]))
-        out.append(dict(alt=alt, cap=1, seed=15, n=4, nf=1, npva=3, cols=99, ipva=True,
+        out.append(dict(alt=alt, cap=1, seed=15, n=4, nf=1, npva=3, cols=98, ipva=True,
                         ops=[['P', 0], ['I', 2], ['S', 1], ['P', 2], ['I', 2], ['G']]))
     return out
 
